@@ -298,6 +298,13 @@ def C06(ctx):
 def C15(ctx):
     ctx.assumptions += ["CNFs keep <= 25 literal occurrences: the hasher's prime product fits 128 bits, so 'equal hash only if equal residual' applies",
                         "hasher domain: the partial model is kept in sync with the decide calls (decide(l) together with m.set(l)); variables < num_vars"]
+    # design level: the incremental hasher (stack of unsatisfied-clause sets, decide / push / pop, caller's model possibly ahead of
+    # the decisions) computes what a from-scratch pass computes, and the kept-occurrence set is in bijection with the residual
+    for fam, what in (("Mixed", "6 clauses incl. unit, tautology, duplicate; 3 variables"), ("Chain", "5 binary clauses in a cycle; 4 variables")) + \
+            ((("Regroup", "regrouping CNF; 5 variables"),) if not ctx.quick else ()):
+        model_check(ctx, "MC_HasherAlgo", "MC_HasherAlgo_%s.cfg" % fam, "HasherAlgo: every push/decide/imply/pop history (<= 2 pushes), %s" % what, workers=6, timeout=900)
+    model_check(ctx, "MC_HasherAlgo", "MC_HasherAlgo_perliteral.cfg", "regression: one prime per literal (not per occurrence) confuses regrouped residuals",
+                workers=2, expect_violation=True)
     n = 4 if ctx.quick else 30
     record_and_validate(ctx, [("cnf_%d" % i, ["record", "cnf", "--seed", ctx.seed * 1000 + i, "--segments", 60 if ctx.quick else 120,
                                               "--nmax", 6 + (i % 3)]) for i in range(n)], "TraceCnf", "TraceCnf.cfg")
@@ -306,6 +313,14 @@ def C15(ctx):
 def C14(ctx):
     ctx.assumptions += ["CNFs without empty clauses and with at least one clause (FORCE divides by the clause length / count)",
                         "vtree manager: random vtrees with 1..6 leaves, labels not necessarily dense; all pairs of node indices"]
+    # design level: eo2dtree + from_dtree as transcribed (DTreeAlgo) are well formed for every CNF of a family x EVERY elimination order
+    model_check(ctx, "MC_DTreeAlgo", "MC_DTreeAlgo_2.cfg", "DTreeAlgo: all CNFs of <= 2 clauses (width <= 3, repeated / complementary literals) over 3 variables x 6 orders", workers=4)
+    model_check(ctx, "MC_DTreeAlgo", "MC_DTreeAlgo_3.cfg", "DTreeAlgo: 5 850 CNFs of <= 3 clauses over 3 variables x 6 orders", workers=6)
+    model_check(ctx, "MC_DTreeAlgo", "MC_DTreeAlgo_ascoded.cfg", "regression: from_cnf as originally coded (D9, no init_vars before gen_cutset) is not well formed",
+                workers=2, expect_violation=True)
+    if not ctx.quick:
+        model_check(ctx, "MC_DTreeAlgo", "MC_DTreeAlgo_4.cfg", "DTreeAlgo: 19 032 CNFs of <= 3 clauses over 4 variables x 24 orders", workers=12, timeout=1800)
+        model_check(ctx, "MC_DTreeAlgo", "MC_DTreeAlgo_5.cfg", "DTreeAlgo: CNFs of <= 5 clauses (binary clauses, units, an empty clause) over 3 variables x 6 orders", workers=12, timeout=1800)
     n = 4 if ctx.quick else 30
     record_and_validate(ctx, [("orders_%d" % i, ["record", "orders", "--seed", ctx.seed * 1000 + i, "--segments", 80 if ctx.quick else 150,
                                                  "--nmax", 4 + (i % 3)]) for i in range(n)], "TraceOrders", "TraceOrders.cfg")
